@@ -19,6 +19,9 @@ type B struct {
 	MW   *MWorld
 	emit func(line, out string)
 	Bad  []string // answers other than "ok…" to world-building ops
+
+	LastDate int64            // the latest claim date used so far
+	declared map[string]int64 // Corpus.PermanodeTime as last declared to the model
 }
 
 func NewB(emit func(line, out string)) *B {
@@ -51,6 +54,9 @@ func (b *B) Claim(pn, kind, attr, val string, date int64) string {
 	b.do(fmt.Sprintf("cl %s %d %s %s %s %s %d", ref, len(tb.Contents), pn, kind, hx(attr), hx(val), date))
 	b.MW.addBlob(ref, "claim", len(tb.Contents))
 	b.MW.Claims = append(b.MW.Claims, MClaim{PN: pn, Kind: kind, Attr: attr, Val: val, Date: date})
+	if date > b.LastDate {
+		b.LastDate = date
+	}
 	return ref
 }
 
@@ -62,6 +68,9 @@ func (b *B) Delete(pn string, date int64) string {
 	b.MW.Deleted = append(b.MW.Deleted, pn)
 	// the delete claim is one of the permanode's claims too (modtime; known to the corpus)
 	b.MW.Claims = append(b.MW.Claims, MClaim{PN: pn, Kind: "delete", Date: date})
+	if date > b.LastDate {
+		b.LastDate = date
+	}
 	return ref
 }
 
@@ -105,6 +114,27 @@ func (b *B) Dir(name string, children []string) string {
 	b.MW.Files = append(b.MW.Files, MFile{Ref: ref, Name: name, IsDir: true})
 	b.MW.Dirs = append(b.MW.Dirs, MDir{Ref: ref, Children: append([]string(nil), children...)})
 	return ref
+}
+
+// PlanFile is the ref the file blob (name, content, mtime) will have once it is uploaded with
+// Bytes + File: a camliContent claim can name it before it exists.
+func PlanFile(name, content string, mtime int64) (fileRef, wholeRef string) {
+	whole := (&test.Blob{Contents: content}).BlobRef()
+	return bFile(name, whole, len(content), mtime).BlobRef().String(), whole.String()
+}
+
+// SyncCTimes declares Corpus.PermanodeTime for every permanode whose expected value changed since
+// it was last declared (new camliContent claims, a content file that arrived late).
+func (b *B) SyncCTimes() {
+	if b.declared == nil {
+		b.declared = map[string]int64{}
+	}
+	for _, pn := range b.MW.PNs {
+		if t := expectPermanodeTime(b.MW, pn); t != b.declared[pn] {
+			b.CTime(pn, t)
+			b.declared[pn] = t
+		}
+	}
 }
 
 // CTime declares Corpus.PermanodeTime(pn) (0 = none).
